@@ -9,13 +9,15 @@ is not a choice) and computes the menu of enabled actions in canonical order:
    N           the next item of the scenario script: an environment event (daemon chain /
                mempool change, client request, admin RPC, cache pressure) or one polling-timer
                firing ('tick')
-   R:k         release a held job / reply
+   R:k         release a held job / reply;  arrive:k  hand over a stalled result
 
 Default policy: the oldest pending J/D if there is one, else N.  A DEVIATION (cost 1) is: a
 younger J/D before an older one; N while a J/D is pending (the environment or a timer overtakes
-a slow thread / a slow daemon); hold(k): mark the oldest J/D as held - it is skipped until a
-release (free) is chosen at any later quiescent point, or until the script is exhausted, when
-everything is released and the default policy runs on to quiescence.
+a slow thread / a slow daemon); hold(k): mark the oldest J/D as held (not yet started / not yet
+answered) - it is skipped until a release (free) is chosen at any later quiescent point;
+stall(k): the job body runs / the daemon computes its answer NOW but the result is handed over
+only at a later point (free 'arrive') - a thread descheduled after its last read, a reply in
+transit.  When the script is exhausted everything is released and the default policy runs on.
 Exploration is by prefix replay on fresh objects: all executions with 0 deviations, then 1, ...
 A replayed prefix whose menu differs from the recorded one is a hard error.
 '''
@@ -51,6 +53,7 @@ class Run:
         self.taken = []
         self.costs = []         # cost of each alternative index at that point
         self.trace = []
+        self.stalled = []       # (label, hand-over callable): ran / answered, not yet delivered
 
     def _items(self):
         out = []
@@ -117,14 +120,18 @@ class Run:
                 for it in free[1:3]:
                     menu.append(('run', it, 1))
                 menu.append(('hold', free[0], 1))
+                menu.append(('stall', free[0], 1))
             else:
                 menu.append(('next', None, 0))
             for it in held:
                 menu.append(('release', it, 0))
+            for n_, (label, _f) in enumerate(self.stalled):
+                menu.append(('arrive', n_, 0))
             c = choices[k] if k < len(choices) else 0
             if c >= len(menu):
                 raise Broken(f'replay diverged at choice point {k}: {c} not in menu of {len(menu)}')
-            self.menus.append([m[0] + (':' + m[1].label() if m[1] else '') for m in menu])
+            self.menus.append([m[0] + (':' + m[1].label() if isinstance(m[1], Item) else '')
+                               for m in menu])
             self.costs.append([m[2] for m in menu])
             self.taken.append(c)
             k += 1
@@ -138,12 +145,28 @@ class Run:
             elif act == 'hold':
                 it.obj.held = True
                 self.trace.append('hold:' + it.label())
+            elif act == 'stall':
+                # the body runs / the daemon answers NOW, the result travels slowly
+                if it.kind == 'J':
+                    self.s._after_job(self.s.loop.run_job(it.obj, deliver=False))
+                    self.stalled.append((it.label(), it.obj.deliver))
+                else:
+                    self.s.daemon.deliver(it.obj, later=True)
+                    self.stalled.append((it.label(), it.obj.deliver_now))
+                self.trace.append('stall:' + it.label())
+            elif act == 'arrive':
+                label, f = self.stalled.pop(it)
+                f()
+                self.trace.append('arrive:' + label)
             else:
                 it.obj.held = False
                 self.trace.append('release:' + it.label())
         # closing: release everything, default policy to quiescence
         for it in self._items():
             it.obj.held = False
+        for label, f in self.stalled:
+            f()
+        self.stalled = []
         s.run_idle()
         for _ in range(self.closing_ticks):
             if not s.loop.fire_polling_timer():
